@@ -30,7 +30,7 @@ ASSUMPTIONS = [
     'failure belong to the same request and must stay on the same node.',
     'A transport exception counts as a failed request.',
 ]
-EXPECTED_PROBES = ['two_clients_one_uri_list', 'error_then_request', 'exception_then_request', 'transient_exhausted_then_request', 'wrapped_around']
+EXPECTED_PROBES = ['request_from_worker_thread', 'duplicate_pool_entry', 'two_clients_one_uri_list', 'error_then_request', 'exception_then_request', 'transient_exhausted_then_request', 'wrapped_around']
 
 OUTCOMES = ['ok', 's404', 's401', 's400', 'perm500', 'trans_ok', 'trans6', 'exc', 'exc_timeout', 'exc_chunked', 'exc_connect_timeout']
 VIAS = ['get', 'post', 'put', 'delete', 'request', 'shell.header', 'shell.counter', 'shell.inject',
@@ -46,6 +46,11 @@ def gen(seed, tier):
     nreq = rng.randint(1, 24 if tier == 'thorough' else 16)
     err_rate = rng.choice([0.1, 0.3, 0.6, 0.9])
     two_clients = rng.random() < 0.25
+    # a pool may list one node twice (double weight): entries are positions, not distinct hosts
+    hosts = list(range(n))
+    if n >= 3 and rng.random() < 0.25:
+        hosts[rng.randrange(1, n)] = hosts[0] if rng.random() < 0.5 else hosts[rng.randrange(0, n)]
+    threads = rng.random() < 0.2
     steps = []
     for _ in range(nreq):
         errs = [o for o in enabled if o != 'ok']
@@ -56,12 +61,14 @@ def gen(seed, tier):
         st = {'via': rng.choice(VIAS), 'outcome': o}
         if rng.random() < 0.2:
             st['shell2'] = True  # issued through a second ShellQuery built over the same RpcMultiNode object
+        if threads and rng.random() < 0.5:
+            st['thread'] = rng.choice([1, 2])  # issued from a worker thread (strictly sequential hand-off: start, join)
         if two_clients and rng.random() < 0.4:
             st['client'] = 1  # a second RpcMultiNode built from the very same list object (e.g. two `using('<net>.pool')` clients)
         if o == 'trans_ok':
             st['r'] = rng.randint(1, 5)
         steps.append(st)
-    return {'prop': ID, 'n': n, 'steps': steps}
+    return {'prop': ID, 'n': n, 'hosts': hosts, 'steps': steps}
 
 
 def execute(scn, want_log=False):
@@ -72,7 +79,7 @@ def execute(scn, want_log=False):
     from pytezos.rpc.shell import ShellQuery
 
     sim = core.Sim()
-    uris = [f'http://node{i}.sim:8732' for i in range(scn['n'])]
+    uris = [f'http://node{h}.sim:8732' for h in scn.get('hosts', list(range(scn['n'])))]
     cur = {'outcome': 'ok', 'left': 0, 'k': 0}
 
     def handler(req):
@@ -136,45 +143,61 @@ def execute(scn, want_log=False):
             cur['left'] = st.get('r', 0)
             first = len(sim.log)
             sim.ev('client_request', i=i, client=cid, via=st['via'], outcome=st['outcome'])
-            raised = None
-            try:
-                v = st['via']
-                if v == 'get':
-                    node.get('chains/main/blocks/head/hash')
-                elif v == 'post':
-                    node.post('injection/operation', json='00')
-                elif v == 'put':
-                    node.put('x/y')
-                elif v == 'delete':
-                    node.delete('network/connections/p')
-                elif v == 'request':
-                    node.request('GET', 'version')
-                elif v == 'shell.header':
-                    shell.head.header()
-                elif v == 'shell.counter':
-                    shell.contracts['tz1abc'].counter()
-                elif v == 'shell.inject':
-                    shell.injection.operation.post(operation='00')
-                elif v == 'shell.monitor_heads':
-                    next(iter(shell.monitor.heads.main()), None)
-                elif v == 'shell.monitor_bootstrapped':
-                    next(iter(shell.monitor.bootstrapped()), None)
-                elif v == 'shell.peer_log_monitor':
-                    next(iter(shell.network.peers['idPeer'].log(monitor=True)), None)
-                elif v == 'shell.points':
-                    shell.network.points(_filter='running')
-                elif v == 'shell.raw_bytes':
-                    shell.head.context.raw.bytes(depth=1)
-                elif v == 'shell.pending':
-                    shell.mempool.pending_operations()
-                elif v == 'shell.mempool_post':
-                    shell.mempool.post({'minimal_fees': '1'})
-                else:
-                    raise core.HarnessError(v)
-            except RpcError as e:
-                raised = e
-            except requests.exceptions.RequestException as e:
-                raised = e
+            box = {}
+
+            def issue(st=st, node=node, shell=shell, box=box):
+                try:
+                    v = st['via']
+                    if v == 'get':
+                        node.get('chains/main/blocks/head/hash')
+                    elif v == 'post':
+                        node.post('injection/operation', json='00')
+                    elif v == 'put':
+                        node.put('x/y')
+                    elif v == 'delete':
+                        node.delete('network/connections/p')
+                    elif v == 'request':
+                        node.request('GET', 'version')
+                    elif v == 'shell.header':
+                        shell.head.header()
+                    elif v == 'shell.counter':
+                        shell.contracts['tz1abc'].counter()
+                    elif v == 'shell.inject':
+                        shell.injection.operation.post(operation='00')
+                    elif v == 'shell.monitor_heads':
+                        next(iter(shell.monitor.heads.main()), None)
+                    elif v == 'shell.monitor_bootstrapped':
+                        next(iter(shell.monitor.bootstrapped()), None)
+                    elif v == 'shell.peer_log_monitor':
+                        next(iter(shell.network.peers['idPeer'].log(monitor=True)), None)
+                    elif v == 'shell.points':
+                        shell.network.points(_filter='running')
+                    elif v == 'shell.raw_bytes':
+                        shell.head.context.raw.bytes(depth=1)
+                    elif v == 'shell.pending':
+                        shell.mempool.pending_operations()
+                    elif v == 'shell.mempool_post':
+                        shell.mempool.post({'minimal_fees': '1'})
+                    else:
+                        raise core.HarnessError(v)
+                except RpcError as e:
+                    box['raised'] = e
+                except requests.exceptions.RequestException as e:
+                    box['raised'] = e
+                except BaseException as e:  # noqa: BLE001  (harness errors / caps raised on the worker thread are re-raised on the main one)
+                    box['fatal'] = e
+            if st.get('thread'):
+                import threading
+
+                t = threading.Thread(target=issue, name=f'worker-{st["thread"]}')
+                t.start()
+                t.join()
+                bump('request_from_worker_thread')
+            else:
+                issue()
+            if 'fatal' in box:
+                raise box['fatal']
+            raised = box.get('raised')
             sim.ev('client_done', i=i, raised=type(raised).__name__ if raised else None)
             reqs = [e for e in sim.log[first:] if e['k'] == 'req']
             judged += 1
@@ -190,6 +213,8 @@ def execute(scn, want_log=False):
                 bump('wrapped_around')
             if cid == 1:
                 bump('two_clients_one_uri_list')
+            if len(set(uris)) < len(uris):
+                bump('duplicate_pool_entry')
             hosts = [r['host'] for r in reqs]
             if not hosts:
                 violations.append({'kind': 'no-attempt', 'sig': 'C28/no-attempt', 'detail': {'i': i}})
@@ -224,16 +249,21 @@ def execute(scn, want_log=False):
 
 
 def simplify(scn):
+    if scn.get('hosts') and scn['hosts'] != list(range(scn['n'])):
+        c = json.loads(json.dumps(scn))
+        c['hosts'] = list(range(scn['n']))
+        yield c
     if scn['n'] > 2:
         c = json.loads(json.dumps(scn))
         c['n'] = scn['n'] - 1
+        c['hosts'] = [h for h in scn.get('hosts', list(range(scn['n'])))[: scn['n'] - 1]]
         yield c
     for i, st in enumerate(scn['steps']):
         if st['via'] != 'get':
             c = json.loads(json.dumps(scn))
             c['steps'][i]['via'] = 'get'
             yield c
-        for fld in ('shell2', 'client'):
+        for fld in ('shell2', 'client', 'thread'):
             if st.get(fld):
                 c = json.loads(json.dumps(scn))
                 del c['steps'][i][fld]
@@ -255,4 +285,4 @@ def simplify(scn):
 
 
 def valid(scn):
-    return bool(scn['steps']) and 1 <= scn['n'] <= 4
+    return bool(scn['steps']) and 1 <= scn['n'] <= 4 and len(scn.get('hosts', [0] * scn['n'])) == scn['n']
